@@ -47,7 +47,10 @@ def main():
             continue
         try:
             checks = sorted(PROPS) if allchecks else [prop]
-            for chk in checks:
+            idx = 0
+            while idx < len(checks):
+                chk = checks[idx]
+                idx += 1
                 t0 = time.time()
                 r = sh("./check %s %s" % (chk, tier), cwd=V)
                 classes = sorted(set(re.findall(r"^violation class=(\S+)", r.stdout, re.M)))
@@ -56,6 +59,11 @@ def main():
                     rec["trouble"] = re.findall(r"^CHECK-ERROR.*", r.stdout, re.M)[:3]
                 results.setdefault(mid, {}).setdefault("checks", {})[chk] = rec
                 print(mid, chk, rec, flush=True)
+                if not allchecks and chk == prop and r.returncode == 0 and idx == len(checks):
+                    # the property's own check misses it: does any other check see it?
+                    checks += [c for c in sorted(PROPS) if c != prop]
+                if chk != prop and r.returncode == 1:
+                    break
         finally:
             sh("git -C /repo checkout -- .")
         json.dump(results, open(rpath, "w"), indent=1, sort_keys=True)
